@@ -60,6 +60,33 @@ func (r *Run) filtersTombstones(fi *prog.FuncInfo) (bool, token.Pos) {
 			})
 			return s
 		}
+		// `if !e.IsDelete() && !yield(e) { return }`: yield is only evaluated for live entries
+		if b, ok := ast.Unparen(is.Cond).(*ast.BinaryExpr); ok && b.Op == token.LAND {
+			if u, ok := ast.Unparen(b.X).(*ast.UnaryExpr); ok && u.Op == token.NOT {
+				isDelTest := false
+				inspect(u.X, func(m ast.Node) bool {
+					if c, ok := m.(*ast.CallExpr); ok {
+						if fn := r.P.CalleeFunc(info, c); fn != nil && (fn.Name() == "IsDelete" || fn.Name() == "isDeleteOp") {
+							isDelTest = true
+						}
+					}
+					return true
+				})
+				yieldsRight := false
+				inspect(b.Y, func(m ast.Node) bool {
+					if c, ok := m.(*ast.CallExpr); ok {
+						if id, ok := c.Fun.(*ast.Ident); ok && id.Name == "yield" {
+							yieldsRight = true
+						}
+					}
+					return true
+				})
+				if isDelTest && yieldsRight {
+					found, at = true, is.Pos()
+					return true
+				}
+			}
+		}
 		if (!neg && skips(is.Body)) || (neg && is.Else != nil && skips(is.Else)) {
 			// a continue on the delete branch skips the entry unless the branch yields first
 			yields := false
@@ -98,6 +125,25 @@ func (r *Run) mergeInputs(fi *prog.FuncInfo, call *ast.CallExpr) (producers []*t
 		}
 	}
 	def := resolveLocal(info, fi.Decl.Body, arg)
+	// the slice may be built by an extracted helper that returns it: continue inside the helper
+	if hc, ok := ast.Unparen(def).(*ast.CallExpr); ok {
+		if hf := r.P.FuncInfoOf(r.P.CalleeFunc(info, hc)); isNewHelper(r.P, hf) {
+			var ret ast.Expr
+			n := 0
+			ast.Inspect(hf.Decl.Body, func(m ast.Node) bool {
+				if rs, ok := m.(*ast.ReturnStmt); ok && len(rs.Results) == 1 {
+					ret = rs.Results[0]
+					n++
+				}
+				return true
+			})
+			if n == 1 {
+				fi, arg = hf, ret
+				info = fi.Pkg.TypesInfo
+				def = resolveLocal(info, fi.Decl.Body, arg)
+			}
+		}
+	}
 	producerOf := func(e ast.Expr) *types.Func {
 		e = resolveLocal(info, fi.Decl.Body, e)
 		if c, ok := ast.Unparen(e).(*ast.CallExpr); ok {
